@@ -15,7 +15,7 @@ use crate::world;
 
 /// (is SC write, value)
 const LETTERS: [(bool, u8); 10] = [(false, 0x00), (false, 0x41), (false, 0x80), (false, 0xFF), (true, 0x00), (true, 0x01), (true, 0x7F), (true, 0x80), (true, 0x81), (true, 0xFF)];
-const FORMS: usize = 3;
+const FORMS: usize = 6;
 const GROUP: u64 = 200;
 
 fn letter_name(i: usize) -> String {
@@ -24,16 +24,24 @@ fn letter_name(i: usize) -> String {
 }
 
 fn form_name(f: usize) -> &'static str {
-  ["LDH (n),A", "LD (C),A", "LD (HL),A"][f]
+  ["LDH (n),A", "LD (C),A", "LD (HL),A", "LD (a16),A", "LD (HL),n", "SET 7,(HL) for SC starts"][f]
 }
 
 fn emit_write(out: &mut Vec<u8>, form: usize, sc: bool, v: u8) {
   let reg = if sc { 0x02 } else { 0x01 };
+  if form == 5 && sc && v & 0x80 != 0 {
+    // a read-modify-write store: whatever SC reads as, the byte written back has bit 7 set,
+    // so a transfer starts (the value itself is not observable: no read side)
+    out.extend_from_slice(&[0x21, reg, 0xFF, 0xCB, 0xFE]);
+    return;
+  }
   out.extend_from_slice(&[0x3E, v]);
   match form {
-    0 => out.extend_from_slice(&[0xE0, reg]),
+    0 | 5 => out.extend_from_slice(&[0xE0, reg]),
     1 => out.extend_from_slice(&[0x0E, reg, 0xE2]),
-    _ => out.extend_from_slice(&[0x21, reg, 0xFF, 0x77]),
+    2 => out.extend_from_slice(&[0x21, reg, 0xFF, 0x77]),
+    3 => out.extend_from_slice(&[0xEA, reg, 0xFF]),
+    _ => out.extend_from_slice(&[0x21, reg, 0xFF, 0x36, v]),
   }
 }
 
@@ -499,7 +507,7 @@ pub fn run(tier: &str) -> i32 {
   r.merge(run_activity_pool(&image, 6));
   let progs = r.counters[0];
   let bytes = r.counters[1];
-  rep.add_stage("nojit-programs", &format!("every sequence of length <= {} over 10 SB/SC writes x 3 store forms ({} programs) + bursts of 1..300 transfers in one block + the cache-exhaustion program + every sequence of length <= 2 under 5 kinds of other device activity (OAM DMA in flight, display on, timer running, all three, IE/IF all set), non-jit build, fd 1 captured", depth, total_programs(depth)), r);
+  rep.add_stage("nojit-programs", &format!("every sequence of length <= {} over 10 SB/SC writes x 6 store forms ({} programs) + bursts of 1..300 transfers in one block + the cache-exhaustion program + every sequence of length <= 2 under 5 kinds of other device activity (OAM DMA in flight, display on, timer running, all three, IE/IF all set), non-jit build, fd 1 captured", depth, total_programs(depth)), r);
   let mut jit_progs = 0;
   match jit_child.unwrap().wait_with_output() {
     Ok(o) if o.status.success() => match progrun::parse_json_file(&jit_out) {
